@@ -2228,6 +2228,8 @@ func (vm *Thread) callNativeMethod(method *NativeMethod, argCount int) (err valu
 // set up the vm to execute a bytecode method with tail call optimisation
 func (vm *Thread) callBytecodeFunctionTCO(method *BytecodeFunction, argCount int) {
 	vm.populateMissingParametersOnStack(method.parameterCount, argCount)
+	// the current frame is reused: locals captured by closures have to be moved off the stack first
+	vm.opCloseUpvalues(vm.fp)
 
 	localCount := method.parameterCount + 1
 	for i := range localCount {
